@@ -103,6 +103,18 @@ class SimEsFactory:
         return es
 
 
+def fault_exception(fault, message):
+    """what user code raises: mostly something with a message, but a bare `assert` or `raise ValueError()` has none (str(e) == "")"""
+    kind = fault.get("exc", "runtime")
+    if kind == "assert-empty":
+        return AssertionError()
+    if kind == "value-empty":
+        return ValueError()
+    if kind == "timeout-empty":
+        return TimeoutError()
+    return RuntimeError(message)
+
+
 # ---------------------------------------------------------------------------------------------- parameter source
 class SimParamSource(rally_params.ParamSource):
     """
@@ -122,6 +134,11 @@ class SimParamSource(rally_params.ParamSource):
             self.percent_completed_enabled = True
 
     def partition(self, partition_index, total_partitions):
+        fault = WORLD.faults.get("param-source")
+        if fault and fault.get("where") == "partition" and fault["task"] == self.task_name and fault["client"] == partition_index and "fired_at" not in fault:
+            # raised while AsyncIoAdapter.run() sets the clients up, i.e. outside any AsyncExecutor
+            fault["fired_at"] = WORLD.clock.now
+            raise fault_exception(fault, "sim: parameter source could not be partitioned")
         p = SimParamSource(self.track, self._params, **self.kwargs)
         p.client_index = partition_index
         p.total = total_partitions
@@ -140,9 +157,9 @@ class SimParamSource(rally_params.ParamSource):
     def params(self):
         w = WORLD
         fault = w.faults.get("param-source")
-        if fault and fault["task"] == self.task_name and fault["client"] == self.client_index and fault["ordinal"] == self.ordinal:
+        if fault and fault.get("where", "params") == "params" and fault["task"] == self.task_name and fault["client"] == self.client_index and fault["ordinal"] == self.ordinal:
             fault["fired_at"] = w.clock.now
-            raise RuntimeError("sim: parameter source failed")
+            raise fault_exception(fault, "sim: parameter source failed")
         if self._size is not None and self.ordinal >= self._size:
             raise StopIteration()
         w.param_calls.append((self.task_name, self.client_index, self.ordinal))
